@@ -50,7 +50,7 @@ SPEC = dict(
                "hsv mode: 8 valid spellings of the raw peer's half of the upgrade per direction (lower-case field names, Connection lists with and without a space after the comma, Upgrade: WebSocket, unknown extra fields and an offered extension, optional whitespace, several offered subprotocols, another reason phrase) are offered: acceptance or refusal is recorded per variant and role, not judged (the property does not demand that every valid spelling is understood); when nng accepts one, the frame behind it must be delivered intact and nng's own 101 reply / upgrade request must pass the strict parser (Sec-WebSocket-Accept, exactly the supported subprotocol); 6 near misses of the compared tokens (noupgrade, upgrades, websocket2, xwebsocket, subprotocol + 1 / - 1 character) must be refused. "
                "conc mode (nng_stream ws:// in message mode, both roles, NNG_OPT_WS_SENDMAXFRAME in {1,7,125,126,1000,65536,unlimited}): 2-3 nng_stream_send operations outstanding at once, each longer than a frame, while the raw peer sends PINGs; the strict decoder must accept the emitted stream (no message starting inside another one), every message must arrive once and intact, every PING answered; one send is cancelled while its message is on the wire and another message sent behind it (it must not start inside the unfinished one: either the connection is failed or the cancelled message completes); the peer sends CLOSE while sends are in progress (no data frame behind nng's CLOSE).",
     level_note="Sampled, not exhaustive, beyond the stated small-stream enumerations. Trusts the harness's reference decoders (about 250 lines, self-tested against RFC examples), the read interposer (it only shortens reads a kernel could legally shorten) and loopback TCP. nng being stricter than the RFC (tabs in header values, bare LF in chunk lines) or lenient in things the property does not name (fragmented control frames, LF-only header lines, Content-Length syntax) is not judged. TLS (wss/https) is not built.",
-    technique="runtime reference-decoder + segmentation differential + rule-mutation monitors with raw peers; ASan/UBSan; allocator balance",
+    technique="runtime reference-decoder + segmentation differential + rule-mutation monitors with raw peers; ASan/UBSan; allocator balance; valgrind memcheck (definedness of every value that steers a branch, an address or a system call) on a sample of the same workload",
     rule="chunk: a case is one seeded stream (valid / one size-rule mutant / random byte mutations) with all its splits; ws valid: a case is (role, mode, limits, fragsize, receive buffer size, seeded frame stream) with all its replays plus 1-4 application sends and a closing handshake; ws rules: a case is (rule, role, mode, valid prefix, segmentation); http: a case is one seeded request or response (or one malformed class) with all its segmentations; a class is (mode-specific situation actually observed), e.g. (rule, role, mode, how the connection ended)",
     assumptions=["loopback TCP", "the interposed readv/sendmsg/writev/send are the only stream I/O calls of the posix layer",
                  "nng may refuse frames/messages above the configured maxima; NNG_OPT_WS_RECVMAXFRAME applies to every frame, NNG_OPT_RECVMAXSZ to messages only"],
@@ -61,7 +61,9 @@ SPEC = dict(
                      R("c16_ws", "asan", 3, 450, "rules", 600),
                      R("c16_ws", "asan", 1, 336, "hs", 600),
                      R("c16_ws", "asan", 1, 112, "hsv", 600),
-                     R("c16_ws", "asan", 2, 140, "conc", 600)],
+                     R("c16_ws", "asan", 2, 140, "conc", 600),
+                     # valgrind memcheck lines: only memcheck reports are judged (see vf FLAVORS["vg"])
+                     R("c16_http", "vg", 1, 1000, "chunk", 1800)],
                floor={"chunk_splits": 3000000, "chunk_rule_rejected": 8000, "chunk_valid_equal": 8000,
                       "http_server_exchanges": 60000, "http_server_malformed": 400, "http_server_model_equal": 500,
                       "http_client_exchanges": 60000, "http_client_malformed": 400, "http_client_model_equal": 600,
@@ -86,7 +88,14 @@ SPEC = dict(
                         R("c16_ws", "asan", 3, 4500, "rules", 3000),
                         R("c16_ws", "asan", 1, 3360, "hs", 3000),
                         R("c16_ws", "asan", 1, 1120, "hsv", 3000),
-                        R("c16_ws", "asan", 2, 1400, "conc", 3000)],
+                        R("c16_ws", "asan", 2, 1400, "conc", 3000),
+                        # valgrind memcheck lines: only memcheck reports are judged (see vf FLAVORS["vg"])
+                        R("c16_http", "vg", 4, 15000, "chunk", 1800),
+                        R("c16_http", "vg", 4, 300, "server", 1800),
+                        R("c16_http", "vg", 4, 300, "client", 1800),
+                        R("c16_ws", "vg", 4, 20, "valid", 1800),
+                        R("c16_ws", "vg", 4, 200, "rules", 1800),
+                        R("c16_ws", "vg", 2, 60, "hs", 1800)],
                   floor={"chunk_splits": 30000000, "http_server_exchanges": 600000, "http_client_exchanges": 600000,
                          "ws_replays": 80000, "ws_exhaustive_cut_streams": 600, "ws_rule_cases": 12000, "@classes": 300,
                          "ws_hs_defect_cases": 3000, "@class:ws-hs/*": 48, "ws_pair1_cases": 200, "ws_tx_sp_header_fragmented": 100,
